@@ -191,6 +191,6 @@ HARNESSES = [
     Harness("H20-sim", h20, quick=dict(mode="sim", K=3), thorough=dict(mode="sim", K=4), pattern="P3 bounded history",
             requires=["run", "closed", "repeated-close", "reopened", "close-unseen"], outside=OUT, max_paths=(400000, 4000000), wall_s=(300, 3000)),
     Harness("H20-live", h20, quick=dict(mode="live", K=3), thorough=dict(mode="live", K=4), pattern="P3 bounded history + symbolic clock",
-            clock_modules=("flumine.markets.market",), requires=["run", "closed", "removed", "reopened"], outside=OUT, max_paths=(400000, 4000000), wall_s=(300, 3000)),
+            clock_modules=("flumine.markets.market",), requires=["run", "closed", "removed", "reopened", "closure-poll"], outside=OUT, max_paths=(400000, 4000000), wall_s=(300, 3000)),
 ]
 META = {"assumptions": ["live clock: integer microseconds, non-decreasing along the history"]}
